@@ -171,6 +171,10 @@ enum tcall { TC_OPEN, TC_SEND, TC_RECV, TC_CLOSE, TC_SLEEP };
 
 enum chunking { CH_MAX = 0, CH_ONE = 1, CH_RANDOM = 2, CH_HEADER_SPLIT = 3 };
 
+/* data-change events: param = number of records that flip, or one of these */
+#define SIM_WIPE_PREFIXES 100001
+#define SIM_WIPE_ALL 100002
+
 struct tevent { /* timed cache-side event */
 	time_t at;
 	uint8_t kind; /* 7 = raw bytes from cfg.rawgen delivered while the client idles; 1 = data change (param = how many records flip), 2 = serial notify, 3 = cache restart (new session), 4 = cache becomes version-0-only (param = v0_mode), 5 = cache obtains data, 8 = unsolicited prefix PDU whose header arrives now and whose rest arrives param seconds later (9, internal) */
